@@ -210,8 +210,6 @@ def main():
         "not_applicable": na,
         "notes": "Technique family: runtime monitoring and sanitizers. Exit 0 held / 1 VIOLATION / 2 inconclusive.",
     }
-    if not na:
-        del man["not_applicable"]
     p = os.path.join(HERE, "MANIFEST.json")
     json.dump(man, open(p, "w"), indent=1, ensure_ascii=False)
     try:
